@@ -6,7 +6,7 @@ _OPS = ['op_nop', 'op_verify', 'op_return', 'op_2drop', 'op_2dup', 'op_3dup', 'o
         'op_add', 'op_sub', 'op_booland', 'op_boolor', 'op_numequal', 'op_numequalverify', 'op_numnotequal',
         'op_min', 'op_max', 'op_within', 'op_ripemd160', 'op_sha1', 'op_sha256', 'op_hash160', 'op_hash256',
         'op_depth', 'op_size', 'op_pick', 'op_roll', 'op_numlessthan', 'op_numgreaterthan', 'op_numlessthanorequal',
-        'op_numgreaterthanorequal', 'op_nop1', 'op_nop4', 'op_nop5', 'op_nop6', 'op_nop7', 'op_nop8', 'op_nop9', 'op_nop10']
+        'op_numgreaterthanorequal', 'op_checklocktimeverify', 'op_checksequenceverify', 'op_nop1', 'op_nop4', 'op_nop5', 'op_nop6', 'op_nop7', 'op_nop8', 'op_nop9', 'op_nop10']
 CONTRACTS = ['bitcoinlib.scripts.Stack.' + o for o in _OPS] + [
     'bitcoinlib.scripts.encode_num', 'bitcoinlib.scripts.decode_num', 'bitcoinlib.scripts.decode_num[roundtrip]',
     'spec.script.script_num_decode[facts]', 'spec.script.cast_to_bool[facts]']
@@ -16,11 +16,11 @@ LEVEL_TEXT = ('Each of 53 Stack.op_* methods and encode_num/decode_num is verifi
               'stack, same fail/success. 21 deviations found that way are open findings (pinned exactly; any other deviation is a violation). '
               'PICK/ROLL (symbolic stack positions), IF/NOTIF/ELSE/ENDIF expansion and the Script.evaluate dispatch loop are only covered by '
               'bounded stand-ins (exhaustive small scripts against a reference interpreter) and are not part of the proof claim; '
-              'CHECKSIG/CHECKMULTISIG/CLTV/CSV are not covered yet.')
+              'CLTV and CSV are proved against BIP65 / BIP112 (both were repaired); CHECKSIG/CHECKMULTISIG are not covered yet.')
 LEVEL_NOTE = ('Trusted: pyvc VC generator and Python semantics (DESIGN §2.10); z3/cvc5; spec/script.py as the statement of consensus; hash functions '
               'as uninterpreted functions; @opaque spec functions (script_num_decode, cast_to_bool) are abstract at call sites, their stated '
               'facts are proved as lemma contracts. Exceptions count as FAIL exactly as Script.evaluate maps them.')
-NOT_COVERED = ['op_checksig / op_checksigverify / op_checkmultisig(verify)', 'op_checklocktimeverify / op_checksequenceverify',
+NOT_COVERED = ['op_checksig / op_checksigverify / op_checkmultisig(verify)',
                'Script.evaluate dispatch, IF/NOTIF expansion, PICK, ROLL: bounded stand-ins only']
 TRUSTED = ['spec/script.py (consensus oracle, transcribed from interpreter.cpp)', 'sha256/sha1/ripemd160 as uninterpreted functions',
            'pyvc engine']
